@@ -221,11 +221,11 @@ impl fmt::Display for Formatter {
                     }
                     Token::Weekday => {
                         write_sep(f, i, &self.format)?;
-                        write!(f, "{}", self.epoch.weekday())?
+                        write!(f, "{}", self.epoch.weekday_of_gregorian_date())?
                     }
                     Token::WeekdayShort => {
                         write_sep(f, i, &self.format)?;
-                        write!(f, "{:x}", self.epoch.weekday())?
+                        write!(f, "{:x}", self.epoch.weekday_of_gregorian_date())?
                     }
                     Token::WeekdayDecimal => {
                         write_sep(f, i, &self.format)?;
@@ -300,11 +300,11 @@ impl fmt::Display for Formatter {
                     }
                     Token::Weekday => {
                         write_sep(f, i, &self.format)?;
-                        write!(f, "{}", self.epoch.weekday())?
+                        write!(f, "{}", self.epoch.weekday_of_gregorian_date())?
                     }
                     Token::WeekdayShort => {
                         write_sep(f, i, &self.format)?;
-                        write!(f, "{:x}", self.epoch.weekday())?
+                        write!(f, "{:x}", self.epoch.weekday_of_gregorian_date())?
                     }
                     _ => unreachable!(),
                 };
